@@ -17,7 +17,9 @@ func (fr *Frame) mapKeySort(mt *types.Map) string {
 	switch u := kt.Underlying().(type) {
 	case *types.Basic:
 		if isString(kt) {
-			fr.ctx.Raw("sort:StrKey", "(declare-sort StrKey 0)")
+			// a string key is (length, canonical content): content shifted to offset 0 and zero
+			// outside [0,len) so that key equality is exactly string equality (extensionality)
+			fr.ctx.Raw("sort:StrKey", "(declare-datatypes ((StrKey 0)) (((mkkey (klen Int) (karr (Array Int (_ BitVec 8)))))))")
 			return "StrKey"
 		}
 		if w, _, ok := basicWidth(u); ok {
@@ -34,14 +36,15 @@ func (fr *Frame) mapKeySort(mt *types.Map) string {
 }
 
 func (fr *Frame) mapKey(st *State, mt *types.Map, k Val) Term {
+	if k.K == KKey {
+		return k.C[0]
+	}
 	kt := mt.Key()
 	switch u := kt.Underlying().(type) {
 	case *types.Basic:
 		if isString(kt) {
-			srt := fr.mapKeySort(mt)
-			f := fr.ctx.Func("strkey", []string{ArrSort(SInt, SBV8), SInt, SInt}, srt)
-			h := fr.heap(st, elemHeap(types.Typ[types.Uint8], ""), byteHeapSort)
-			return app(srt, f, Select(h, k.Obj()), k.Off(), k.Len())
+			fr.mapKeySort(mt)
+			return fr.strKey(st, k)
 		}
 		return k.Term()
 	case *types.Array:
@@ -66,7 +69,7 @@ func mapHeapVal(t types.Type, p string) string { return "MapVal:" + typeName(t.U
 func (fr *Frame) mapHas(st *State, ref Term, mt *types.Map, t types.Type, k Term) Term {
 	ks := fr.mapKeySort(mt)
 	h := fr.heap(st, mapHeapHas(t), ArrSort(SInt, ArrSort(ks, SBool)))
-	return Select(Select(h, ref), k)
+	return And(Not(Eq(ref, Nil)), Select(Select(h, ref), k)) // a nil map has no entries
 }
 
 func (fr *Frame) mapGet(st *State, ref Term, mt *types.Map, t types.Type, k Term) Val {
@@ -122,8 +125,6 @@ func (fr *Frame) execLookup(st *State, x *ssa.Lookup) {
 		fr.assumeWF(st, v)
 		if x.CommaOk {
 			has := fr.mapHas(st, m.Term(), u, x.X.Type(), k)
-			// a nil map has no entries
-			has = And(Not(Eq(m.Term(), Nil)), has)
 			fr.regs[x] = Val{K: KTuple, Elems: []Val{v, scalar(types.Typ[types.Bool], fr.ctx.Def("has", has))}}
 			return
 		}
@@ -183,4 +184,15 @@ func (fr *Frame) execSelect(st *State, x *ssa.Select) {
 		}
 	}
 	fr.regs[x] = Val{K: KTuple, Elems: elems}
+}
+
+// strKey builds the canonical key of a string / byte-slice value.
+func (fr *Frame) strKey(st *State, k Val) Term {
+	h := fr.heap(st, elemHeap(types.Typ[types.Uint8], ""), byteHeapSort)
+	src := fr.ctx.Def("ksrc", Select(h, k.Obj()))
+	c := fr.ctx.Fresh("kcanon", ArrSort(SInt, SBV8))
+	j := Term{"j!k", SInt}
+	body := Eq(Select(c, j), Ite(InRange(j, IntT(0), k.Len()), Select(src, IAdd(k.Off(), j)), BV(0, 8)))
+	fr.ctx.Assume(Forall([]Term{j}, body, Select(c, j)))
+	return Term{"(mkkey " + k.Len().S + " " + c.S + ")", "StrKey"}
 }
